@@ -599,8 +599,8 @@ pub fn c20(tier: Tier) -> Check {
                final configuration (FIR up to entry order), get_padding as configured; non-trivial = a setter is overwritten or an owned variant / wrapper is used after another field was set",
         assumptions: vec!["the canonical construction (harness/src/drive.rs) is itself checked against the RFC image by C07"],
         legs: vec![
-            Box::new(RandomLeg { name: "valid-configs-x-histories", cases: tier.pick(80_000, 2_000_000), make: Box::new(|| hist_case(false)), oracle: c20_oracle }),
-            Box::new(RandomLeg { name: "any-configs-x-histories", cases: tier.pick(40_000, 1_000_000), make: Box::new(|| hist_case(true)), oracle: c20_oracle }),
+            Box::new(RandomLeg { name: "valid-configs-x-histories", cases: tier.pick(400_000, 2_000_000), make: Box::new(|| hist_case(false)), oracle: c20_oracle }),
+            Box::new(RandomLeg { name: "any-configs-x-histories", cases: tier.pick(200_000, 1_000_000), make: Box::new(|| hist_case(true)), oracle: c20_oracle }),
             Box::new(SweepLeg {
                 name: "kind-templates-x-single-deviation",
                 n: 11 * 40 * 5,
